@@ -4,7 +4,7 @@ defect on top of the current HEAD (git revert --no-commit in the scratch worktre
 permanent regression seed for the checks."""
 import json, os, subprocess
 MUT='/tmp/mut'
-PROP={'be34a46':'C12','3566403':'C17','222a5c8':'C17','80d5101':'C09','b6bb892':'C09','0872a1b':'C09','980b5cf':'C09','7f2255f':'C06','2318dd7':'C06',
+PROP={'56a8bb1':'C03','be34a46':'C12','3566403':'C17','222a5c8':'C17','80d5101':'C09','b6bb892':'C09','0872a1b':'C09','980b5cf':'C09','7f2255f':'C06','2318dd7':'C06',
       '374e927':'C11','6ac7204':'C13','7b82da3':'C15','8adef75':'C02','041d2ad':'C18','64428d8':'C19','a45f0b3':'C19','8f55be1':'C10'}
 ALSO={'8adef75':['C04'],'64428d8':['C12','C06'],'8f55be1':['C19'],'374e927':['C04']}
 def sh(c):
